@@ -159,6 +159,11 @@ def oracle_sweep(ctx, ops, impl):
             code = int(m.group(1)) if m else -1
             st[code] = st.get(code, 0) + 1
             ctx.count_case(" ".join(w[1:]), nontrivial=(code == 200))
+            # /ping answers the two bytes "OK", /info a document whose only member is the version (whatever the query)
+            if code == 200 and w[w.index("raw") + 1:w.index("raw") + 3] == ["GET", "/ping"] and "body=4f4b" not in q[0]:
+                ctx.violation("http-ping-body", "GET /ping answered %s instead of the body OK" % q[0], o + "\n")
+            if code == 200 and w[w.index("raw") + 1:w.index("raw") + 3] == ["GET", "/info"] and "body=version" not in q[0]:
+                ctx.violation("http-info-body", "GET /info answered %s instead of {\"version\": <binary version>}" % q[0], o + "\n")
             if code >= 500 or code < 0:
                 ctx.violation("http-5xx:" + " ".join(w[2:4]), "HTTP request answered %s" % q[0], o + "\n")
             if 400 <= code < 500 and len(q) > 1 and prevq is not None and q[1] != prevq:
